@@ -55,7 +55,8 @@ type indexKVStore struct {
 	// cache
 	bucketCache *expirable.LRU[uint32, *model.TrieBucket]
 
-	lock sync.RWMutex
+	flushes uint64 // number of completed flushes(persisted values changed), protected by lock
+	lock    sync.RWMutex
 }
 
 // NewIndexKVStore creates an IndexKVStore instance.
@@ -294,6 +295,7 @@ func (s *indexKVStore) Flush() (err error) {
 
 	s.snapshot = s.family.GetSnapshot()
 	s.immutable = nil
+	s.flushes++
 	// purge bucket cache, because new kv write
 	s.bucketCache.Purge()
 	return nil
@@ -311,6 +313,10 @@ func (s *indexKVStore) getOrCreateValue(bucketID uint32, key []byte,
 	createFn func() (uint32, error),
 ) (id uint32, ok, isNew bool, err error) {
 	// get from memory store
+	s.lock.RLock()
+	flushes := s.flushes
+	s.lock.RUnlock()
+
 	id, ok = s.GetValueFromMem(bucketID, key)
 	if ok {
 		return id, true, false, nil
@@ -341,17 +347,41 @@ func (s *indexKVStore) getOrCreateValue(bucketID uint32, key []byte,
 	if createFn == nil {
 		return 0, false, false, nil
 	}
-	id, err = s.createValue(bucketID, key, createFn)
+	id, isNew, err = s.createValue(bucketID, key, flushes, createFn)
 	if err != nil {
 		return 0, false, false, err
 	}
-	return id, true, true, nil
+	return id, true, isNew, nil
 }
 
-// createValue creates new value.
-func (s *indexKVStore) createValue(bucketID uint32, key []byte, createFn func() (uint32, error)) (uint32, error) {
+// createValue creates new value if the key still not exist.
+func (s *indexKVStore) createValue(bucketID uint32, key []byte, flushes uint64,
+	createFn func() (uint32, error),
+) (id uint32, isNew bool, err error) {
 	s.lock.Lock()
 	defer s.lock.Unlock()
+
+	// lookup again under write lock, other goroutine maybe create the value after the lookup of caller,
+	// else same key will get different ids.
+	if existID, ok := s.getValueFromMem(s.mutable, bucketID, key); ok {
+		return existID, false, nil
+	}
+	if existID, ok := s.getValueFromMem(s.immutable, bucketID, key); ok {
+		return existID, false, nil
+	}
+	if s.flushes != flushes {
+		// values were persisted after the lookup of caller, need lookup persisted values again
+		bucket, err0 := v1.NewIndexKVReader(s.snapshot).GetBucket(bucketID)
+		if err0 != nil {
+			return 0, false, err0
+		}
+		if bucket != nil {
+			defer bucket.Release()
+			if existID, ok := bucket.GetValue(key); ok {
+				return existID, false, nil
+			}
+		}
+	}
 
 	kvs, ok := s.mutable.Get(bucketID)
 	if !ok {
@@ -359,12 +389,12 @@ func (s *indexKVStore) createValue(bucketID uint32, key []byte, createFn func() 
 		s.mutable.Put(bucketID, kvs)
 	}
 	// generate and store value
-	id, err := createFn()
+	id, err = createFn()
 	if err != nil {
-		return 0, err
+		return 0, false, err
 	}
 	kvs[string(key)] = id
-	return id, nil
+	return id, true, nil
 }
 
 // GetValueFromMem returns value from mem store.
